@@ -95,7 +95,7 @@ pub fn parallel(kind: PoolKind, cfg: &PoolCfg, trace: &[TFrame], lockstep: bool,
         }
         if h.dispatch(t.frame.clone()) {
             queued += 1;
-            if lockstep && !pool::wait_processed(queued, Duration::from_secs(30)) {
+            if lockstep && h.wait_drain(queued, Duration::from_secs(30)) == pool::Drain::Stalled {
                 drained = false;
                 break;
             }
@@ -103,7 +103,9 @@ pub fn parallel(kind: PoolKind, cfg: &PoolCfg, trace: &[TFrame], lockstep: bool,
             all_queued = false;
         }
     }
-    if drained && !pool::wait_processed(queued, Duration::from_secs(30)) {
+    // an idle pool that processed fewer frames than were queued counts as drained: the comparison
+    // below then shows what is missing
+    if drained && h.wait_drain(queued, Duration::from_secs(30)) == pool::Drain::Stalled {
         drained = false;
     }
     let results = h.drain_results();
@@ -157,10 +159,14 @@ pub fn run(ctx: &mut Ctx) {
         if !ctx.mine(t) {
             continue;
         }
+        if ctx.rep.violation_count > 40 {
+            ctx.note("stopped early after more than 40 violations in this shard");
+            break;
+        }
         let mut r = ctx.rng_global(10, t);
         let nconn = if ctx.miri() { 3 } else { 10 + r.usize(if ctx.quick() { 60 } else { 190 }) };
         let (_conns, trace) = gen_trace(&mut r, nconn, t * 256);
-        let with_db = t % 2 == 0;
+        let with_db = t % 2 == 0 && !ctx.miri(); // loading the bundled database costs ~50 s under Miri
         for kind in [PoolKind::Tcp, PoolKind::Http, PoolKind::Tls] {
             let started = std::time::Instant::now();
             let seq = match sequential(kind, &trace, with_db, |_| scenario::T0) {
@@ -291,6 +297,15 @@ fn pcap_mode(ctx: &mut Ctx, r: &mut Rng, t: u64, trace: &[TFrame]) {
     compare(ctx, PoolKind::Tcp, &cfg, "analyze_pcap", &seq, &out, t, &tf);
 }
 
+/// thorough tier only: sanitizer / interpreter stages, run once in the parent
+fn sanitizers(ctx: &mut Ctx) {
+    if !ctx.thorough() {
+        return;
+    }
+    crate::rt::tsan_stage(ctx, 900);
+    crate::rt::miri_stage(ctx, "-Zmiri-many-seeds=0..3", 3000);
+}
+
 pub fn spec() -> PropSpec {
     PropSpec {
         id: "C10",
@@ -303,6 +318,6 @@ pub fn spec() -> PropSpec {
             "Ethernet and raw-IP framing only (the TLS pool drops loopback-framed frames at dispatch by design of its hash)",
             "only schedules produced by real threads with perturbation are explored; the thorough tier adds ThreadSanitizer and Miri stages on reduced traces",
         ],
-        parent_stage: None,
+        parent_stage: Some(sanitizers),
     }
 }
